@@ -23,7 +23,11 @@
    Named deviations of the pinned code (recorded in known_findings.json):
      ExtractAddOverflow     LengthDelimited::extract computes lfl + len unchecked
      EncloseTruncates       LengthDelimited::enclose stores only the low lfl bytes
-                            of the payload length                              *)
+                            of the payload length
+     FramerErrorPoisons     poll_next propagates an extract error with the question mark
+                            after idle.take(): the state stays Idle(None) and the next
+                            poll panics ("Inconsistent state"); unreachable with the
+                            built-in framers, which never return Err                  *)
 EXTENDS Integers, Sequences, FiniteSets, TLC
 
 CONSTANTS Lfls,        \* length-field widths explored in round-trip mode (subset of 1..8)
@@ -32,6 +36,8 @@ CONSTANTS Lfls,        \* length-field widths explored in round-trip mode (subse
           DelimKinds,  \* delimiter framers in round-trip mode, subset of {"nl", "c1", "R3", "a12", "a11"}
           HostDelimKinds, \* delimiter framers against hostile input
           WithNoop,    \* BOOLEAN
+          WithLim,     \* BOOLEAN: a user-written framer that uses the Err arm of Framer::extract
+                       \* (2 byte big-endian length field, refuses frames longer than LimLimit)
           Codecs,      \* subset of {"bytes", "json"}
           PayAlpha,    \* payload alphabet for the bytes codec
           MaxPay,      \* maximal payload length
@@ -65,7 +71,7 @@ VARIABLES fr,      \* the framer  [k, lfl, be, dk, d]
           rbuf,    \* read buffer (the Vec: all initialized bytes)
           pos,     \* Buffer progress = Slice::begin
           eof,     \* read::State::eof
-          st,      \* "wait" | "idle" | "reading" | "done" | "panic"
+          st,      \* "wait" | "idle" | "reading" | "done" | "panic" | "poisoned" (Idle(None)) | "poisonpanic"
           out,     \* ghost: payloads of the Ok items poll_next returned (Err items are counted in errs)
           zr, errs, after   \* environment budgets used
 
@@ -96,10 +102,12 @@ FramerSetOf(lfls, dks) ==
   {[k |-> "ld", lfl |-> l, be |-> b, dk |-> "", d |-> <<>>] : l \in lfls, b \in Endians}
   \cup {[k |-> "delim", lfl |-> 0, be |-> FALSE, dk |-> x, d |-> DelimBytes(x)] : x \in dks}
   \cup (IF WithNoop THEN {[k |-> "noop", lfl |-> 0, be |-> FALSE, dk |-> "", d |-> <<>>]} ELSE {})
+  \cup (IF WithLim THEN {[k |-> "lim", lfl |-> 2, be |-> TRUE, dk |-> "", d |-> <<>>]} ELSE {})
 FramerSet == FramerSetOf(Lfls, DelimKinds)
 HostFramerSet == FramerSetOf(HostLfls, HostDelimKinds)
 
-HeaderWidth(f) == IF f.k = "ld" THEN f.lfl ELSE Len(f.d)
+HeaderWidth(f) == IF f.k \in {"ld", "lim"} THEN f.lfl ELSE Len(f.d)
+LimLimit == 3
 NoopMax == 4096                         \* NoopFramer::default().max_size
 
 ExactDigits == 3
@@ -110,7 +118,7 @@ Digit(n, i) == IF i <= ExactDigits THEN (n \div Pow256(i - 1)) % 256 ELSE 0
 \* LengthDelimited::enclose: to_be_bytes()[8 - lfl ..] resp. to_le_bytes()[.. lfl]
 Header(f, n) == [j \in 1..f.lfl |-> IF f.be THEN Digit(n, f.lfl - j + 1) ELSE Digit(n, j)]
 
-Enclose(f, p) == CASE f.k = "ld"    -> Header(f, Len(p)) \o p
+Enclose(f, p) == CASE f.k \in {"ld", "lim"} -> Header(f, Len(p)) \o p
                    [] f.k = "delim" -> p \o f.d              \* AnyDelimited::enclose: extend_from_slice
                    [] OTHER         -> p                     \* NoopFramer::enclose
 
@@ -119,6 +127,7 @@ EncloseTruncates(f, p) == f.k = "ld" /\ f.lfl <= ExactDigits /\ Len(p) >= Pow256
 
 More == [r |-> "more", pre |-> 0, pay |-> 0, suf |-> 0]
 Panic == [r |-> "panic", pre |-> 0, pay |-> 0, suf |-> 0]
+Error == [r |-> "err", pre |-> 0, pay |-> 0, suf |-> 0]
 FrameOf(a, b, c) == [r |-> "frame", pre |-> a, pay |-> b, suf |-> c]
 
 \* i-th little-endian digit of the length field at the start of view v
@@ -147,7 +156,13 @@ ExtractDelim(f, v) ==
 \* NoopFramer::extract
 ExtractNoop(v) == IF Len(v) = 0 THEN More ELSE FrameOf(0, Min(Len(v), NoopMax), 0)
 
+\* the user-written framer: checks the announced length first, then delegates
+ExtractLim(f, v) ==
+  IF Len(v) >= f.lfl /\ (LenClass(f, v).c # "small" \/ LenClass(f, v).n > LimLimit) THEN Error
+  ELSE ExtractLD(f, v)
+
 Extract(f, v) == CASE f.k = "ld"    -> ExtractLD(f, v)
+                   [] f.k = "lim"   -> ExtractLim(f, v)
                    [] f.k = "delim" -> ExtractDelim(f, v)
                    [] OTHER         -> ExtractNoop(v)
 
@@ -276,6 +291,19 @@ IdleExtractPanics ==
   /\ st' = "panic"
   /\ UNCHANGED <<wire, lazy, rbuf, pos, eof, out, zr, errs, after, cvars, wvars>>
 
+\* Idle, extract = Err(e): "this.framer.extract(inner)?" returns Some(Err) after idle.take(),
+\* the state is left as Idle(None)  (deviation FramerErrorPoisons)
+IdleExtractErr ==
+  /\ st = "idle" /\ Ext.r = "err"
+  /\ st' = "poisoned"
+  /\ UNCHANGED <<wire, lazy, rbuf, pos, eof, out, zr, errs, after, cvars, wvars>>
+
+\* the next poll finds Idle(None): idle.take().expect("Inconsistent state") panics
+PollPoisoned ==
+  /\ st = "poisoned"
+  /\ st' = "poisonpanic"
+  /\ UNCHANGED <<wire, lazy, rbuf, pos, eof, out, zr, errs, after, cvars, wvars>>
+
 \* Reading completed with n > 0 bytes appended
 ReadData(n) ==
   /\ st = "reading"
@@ -319,7 +347,7 @@ PollAfterDone ==
   /\ UNCHANGED <<wire, lazy, rbuf, pos, eof, out, zr, errs, cvars, wvars>>
 
 \* nothing left to do (lets TLC's deadlock check find every other state without a successor)
-Finish == /\ \/ st = "panic"
+Finish == /\ \/ st \in {"panic", "poisonpanic"}
              \/ st = "done" /\ after = AfterDone
           /\ UNCHANGED vars
 
@@ -330,6 +358,8 @@ Next == \/ StartSend
         \/ IdleExtractFrame
         \/ IdleNeedMore
         \/ IdleExtractPanics
+        \/ IdleExtractErr
+        \/ PollPoisoned
         \/ \E n \in 1..ChunkMax : ReadData(n)
         \/ \E n \in 1..ChunkMax : ReadDataLazy(n)
         \/ ReadZero
@@ -367,14 +397,15 @@ RoundTripModuloKnown == SomeTruncated \/ RoundTrip
 InRange == st = "idle" /\ Ext.r = "frame" => pos + Ext.pre + Ext.pay + Ext.suf <= Len(rbuf)
 PosInside == pos <= Len(rbuf)
 KnownOverflow == fr.k = "ld" /\ fr.lfl = 8 /\ Len(View) >= 8 /\ LenClass(fr, View).c = "wrap"
-NoPanic == st # "panic"
-NoPanicModuloKnown == st = "panic" => KnownOverflow
+NoPanic == st \notin {"panic", "poisonpanic"}
+NoPanicModuloKnown == st = "panic" => KnownOverflow      \* "poisonpanic" is the other named deviation
+BuiltinNeverPoisoned == st \in {"poisoned", "poisonpanic"} => fr.k = "lim"
 
 \* progress measure: every step of the machine strictly decreases it
-Rank(s) == CASE s = "idle" -> 2 [] s = "reading" -> 1 [] OTHER -> 0
+Rank(s) == CASE s = "idle" -> 2 [] s \in {"reading", "poisoned"} -> 1 [] OTHER -> 0
 Measure == 3 * (3 * (Len(wire) + lazy) + 2 * (Len(rbuf) - pos) + (IF eof THEN 0 ELSE 1)
                 + (ZeroReads - zr) + (MaxErr - errs)) + Rank(st)
-Progress == [][ (st \in {"idle", "reading"} => Measure' < Measure) ]_rvars
+Progress == [][ (st \in {"idle", "reading", "poisoned"} => Measure' < Measure) ]_rvars
 RECURSIVE Unstarted(_)
 Unstarted(i) == IF i > Len(frames) THEN 0 ELSE 2 * Len(Enclose(fr, frames[i])) + 3 + Unstarted(i + 1)
 WMeasure == Unstarted(nsent + (IF wst = "writing" THEN 1 ELSE 0) + 1) + 2 * (Len(wbuf) - needle)
@@ -382,7 +413,7 @@ WMeasure == Unstarted(nsent + (IF wst = "writing" THEN 1 ELSE 0) + 1) + 2 * (Len
 WProgress == [][ WMeasure' < WMeasure ]_wvars
 MeasureNonNeg == Measure >= 0 /\ WMeasure >= 0
 
-Finished == \/ st = "panic"
+Finished == \/ st \in {"panic", "poisonpanic"}
             \/ st = "done" /\ after = AfterDone
 Terminates == <>Finished
 =============================================================================
